@@ -278,7 +278,7 @@ def _hypothesis_search(mod, tier, seed, shard, nshards, stats, open_known, deadl
                 stats.skipped_budget += 1
                 return
             try:
-                f = run_one(mod, case, stats, open_known, count=state["first_fail_t"] is None)
+                f = run_one(mod, case, stats, open_known)
             except Exception:  # noqa: BLE001  harness error: stop searching, report exit 2
                 state["harness"] = traceback.format_exc() + "\ncase=" + canon(case)[:3000]
                 return
